@@ -75,6 +75,7 @@ int main(int argc, char** argv) {
         RunStats st;
         auto t0 = std::chrono::steady_clock::now();
         int reported = 0;
+        bool ids_reported = false;
         for (long i = start; i < start + count; ++i) {
             uint64_t s = mix(seed, (uint64_t)i);
             Plan plan = generate_plan(d, *v, pf, s);
@@ -91,6 +92,12 @@ int main(int argc, char** argv) {
                 oc.dv.diverged = true;
             }
 #endif
+            if (oc.level == "IDS") {
+                // finding KF-3 shows in every run on such a machine: report it once, outside the report budget
+                if (ids_reported) continue;
+                ids_reported = true;
+                --reported;
+            }
             if (oc.verdict != V_OK && reported < max_report) {
                 Outcome m = oc.level == "SAN" ? oc : shrink(d, *v, pf, plan, oc);
                 ++reported;
@@ -133,10 +140,16 @@ int main(int argc, char** argv) {
         RunStats st;
         auto t0 = std::chrono::steady_clock::now();
         int reported = 0;
+        bool ids_reported = false;
         for (long i = start; i < start + count; ++i) {
             Plan plan = generate_plan(d, *vs[i % vs.size()], pf, mix(seed, (uint64_t)i));
             plan.variant = list;
             Outcome oc = evaluate_diff(d, vs, pf, plan, mode, &st);
+            if (oc.level == "IDS") {
+                if (ids_reported) continue;
+                ids_reported = true;
+                --reported;
+            }
             if (oc.verdict != V_OK && reported < max_report) {
                 Outcome m = shrink_diff(d, vs, pf, plan, mode, oc);
                 ++reported;
@@ -162,7 +175,8 @@ int main(int argc, char** argv) {
         long idx = atol(arg(argc, argv, "--index", "0").c_str());
         Plan plan = generate_plan(d, *v, pf, mix(seed, (uint64_t)idx));
         printf("%s\n", plan_to_json(plan).dump().c_str());
-        World real(d, [&](int) { return v->make(); }, false), model(d, [&](int r) { return (IMachine*)new Model(d, dialect_of(*v), r); }, true);
+        const Desc& dv_ = view_of(d, v->dialect);
+        World real(dv_, [&](int) { return v->make(); }, false), model(dv_, [&](int r) { return (IMachine*)new Model(dv_, dialect_of(*v), r); }, true);
         real.observe_each = model.observe_each = pf.observe_each;
         real.run(plan); model.run(plan);
         Divergence dv = compare_traces(real, model);
@@ -194,7 +208,7 @@ int main(int argc, char** argv) {
             printf("REPLAY %s\n", out.dump().c_str());
             if (has_flag(argc, argv, "--verbose")) {
                 for (size_t k = 0; k < vs.size(); ++k) {
-                    World w(d, [&](int) { return vs[k]->make(); }, false);
+                    World w(view_of(d, vs[k]->dialect), [&](int) { return vs[k]->make(); }, false);
                     w.observe_each = pf.observe_each;
                     w.run(plan);
                     printf("---- %s\n", vs[k]->name.c_str());
@@ -218,10 +232,12 @@ int main(int argc, char** argv) {
         printf("REPLAY %s\n", out.dump().c_str());
         fflush(stdout);
         if (has_flag(argc, argv, "--verbose")) {
-            World real(d, [&](int) { return v->make(); }, false), model(d, [&](int r) { return (IMachine*)new Model(d, dialect_of(*v), r); }, true);
+            const Desc& dv_ = view_of(d, v->dialect);
+            World real(dv_, [&](int) { return v->make(); }, false), model(dv_, [&](int r) { return (IMachine*)new Model(dv_, dialect_of(*v), r); }, true);
             real.observe_each = model.observe_each = pf.observe_each;
             real.run(plan); model.run(plan);
-            print_trace_window(d, real, model, oc.dv.index, 40, 8);
+            print_trace_window(dv_, real, model, oc.dv.index, 40, 8);
+            if (real.aborted) printf("library assertion: %s\n", real.abort_msg.c_str());
         }
         return oc.verdict == V_OK ? 0 : 1;
     }
